@@ -260,3 +260,135 @@ Proof.
       rewrite (exec_with_col s tn cn t c _ (g (col_cat t c)) Hf Hc); try reflexivity;
       intros T cat HT Hcol -> ->; unfold exec_alter_op; rewrite HT, Hcol, Eres; reflexivity.
 Qed.
+
+(* ---------- AddColumn, back-fill sequence ---------- *)
+Lemma find_replace tn c T0 T' : find_table tn c = Some T0 -> pt_name T' = tn ->
+  find_table tn (replace_table T' tn c) = Some T'.
+Proof.
+  unfold find_table, replace_table, map_table, set_tables. cbn [c_tables]. intros H HT.
+  induction (c_tables c) as [|x r IH]; [discriminate|]. cbn [find map] in *.
+  destruct (String.eqb (pt_name x) tn) eqn:E.
+  - now rewrite HT, String.eqb_refl.
+  - rewrite E. now apply IH.
+Qed.
+Lemma replace_replace tn c A B : pt_name A = tn -> replace_table B tn (replace_table A tn c) = replace_table B tn c.
+Proof.
+  intro HA. unfold replace_table, map_table, set_tables. cbn [c_tables c_enums]. f_equal.
+  rewrite map_map. apply map_ext. intro y. destruct (String.eqb (pt_name y) tn) eqn:E; [|now rewrite E].
+  now rewrite HA, String.eqb_refl.
+Qed.
+Lemma type_exists_replace n tn c T0 T' : find_table tn c = Some T0 -> pt_name T' = tn ->
+  type_exists n (replace_table T' tn c) = type_exists n c.
+Proof.
+  intros _ HT. unfold type_exists, replace_table, map_table, set_tables. cbn [c_tables c_enums]. f_equal.
+  rewrite existsb_map. apply existsb_ext_in. intros y _. destruct (String.eqb (pt_name y) tn) eqn:E; [|reflexivity].
+  apply String.eqb_eq in E. now rewrite HT, E.
+Qed.
+Lemma resolve_replace tn c T0 T' ty : find_table tn c = Some T0 -> pt_name T' = tn ->
+  resolve_type (replace_table T' tn c) ty = resolve_type c ty.
+Proof.
+  intros H HT. unfold resolve_type. rewrite !(type_exists_replace _ tn c T0 T' H HT). reflexivity.
+Qed.
+
+Lemma find_col_snoc cn (cols : list pg_col) x :
+  existsb (fun y => String.eqb (pc_name y) cn) cols = false -> pc_name x = cn ->
+  find (fun y => String.eqb (pc_name y) cn) (cols ++ [x]) = Some x.
+Proof.
+  intros H Hx. induction cols as [|y r IH]; cbn [app find existsb] in *.
+  - now rewrite Hx, String.eqb_refl.
+  - apply orb_false_iff in H. destruct H as [H1 H2]. rewrite H1. now apply IH.
+Qed.
+Lemma update_snoc cn (cols : list pg_col) x x' :
+  existsb (fun y => String.eqb (pc_name y) cn) cols = false -> pc_name x = cn ->
+  map (fun y => if String.eqb (pc_name y) cn then x' else y) (cols ++ [x]) = cols ++ [x'].
+Proof.
+  intros H Hx. induction cols as [|y r IH]; cbn [app map existsb] in *.
+  - now rewrite Hx, String.eqb_refl.
+  - apply orb_false_iff in H. destruct H as [H1 H2]. rewrite H1. f_equal. now apply IH.
+Qed.
+
+Theorem sim_pg_add_column_backfill s tn col fw :
+  hyp_add_column_backfill s tn col fw = true -> step_sim s (AddColumn tn col fw).
+Proof.
+  unfold hyp_add_column_backfill, hyp_add_column_gen. intro H. apply andb_prop in H. destruct H as [Hnd H].
+  destruct (find (fun x => String.eqb (t_name x) tn) s) as [t|] eqn:Hf; [|discriminate].
+  cbv zeta in H.
+  repeat (apply andb_prop in H; destruct H as [H ?]).
+  rename H into Hnew, H0 into Hpk, H1 into Hres, H2 into Hnorm, H3 into Hbf, H4 into Hne.
+  apply negb_true_iff in Hnew, Hne. apply Bool.eqb_prop in Hbf.
+  pose proof (find_name _ _ _ Hf) as Hname.
+  set (t' := mkTable (t_name t) (t_description t) (t_columns t ++ [col]) (t_constraints t)) in *.
+  destruct (normalize t') as [nt|] eqn:En; [|discriminate].
+  unfold table_def_eqb, dec_b in Hnorm. destruct (table_def_eq_dec nt t') as [->|]; [|discriminate].
+  assert (Hft : (fun t0 : table_def =>
+                  if has_column (c_name col) t0 then Err (ColumnExists tn (c_name col))
+                  else match normalize (mkTable (t_name t0) (t_description t0) (t_columns t0 ++ [col]) (t_constraints t0)) with
+                       | Err _ => Err TableValidation
+                       | Ok n => Ok n
+                       end) t = @Ok table_def planner_error t').
+  { cbv beta. rewrite Hnew. fold t'. now rewrite En. }
+  assert (Hen : table_enums t' = table_enums t).
+  { unfold table_enums, t'. cbn [t_name t_columns]. now apply enums_of_cols_snoc_plain. }
+  destruct (update_table_spec tn _ s t t' Hnd Hf Hft eq_refl Hen) as (s' & Hup & Hc & _).
+  (* the back-fill conditions *)
+  unfold needs_backfill in Hbf. apply andb_prop in Hbf. destruct Hbf as [Hbf Hfw]. apply andb_prop in Hbf. destruct Hbf as [Hnn Hdef].
+  apply negb_true_iff in Hnn. destruct (c_default col) as [dv|] eqn:Edef; [discriminate|].
+  destruct fw as [fv|]; [|discriminate].
+  destruct (resolve_type (catalog_of s) (sea_type tn (c_type col))) as [[x b]|] eqn:Eres; [|discriminate].
+  destruct b; [discriminate|]. apply String.eqb_eq in Hres. subst x.
+  set (cn := c_name col). set (ty := cat_type tn (c_type col)).
+  set (T := table_cat t).
+  set (x1 := mkPc cn ty false None false). set (x2 := mkPc cn ty true None false).
+  set (T1 := mkPt (pt_name T) (pt_cols T ++ [x1]) (pt_cons T) (pt_idx T)).
+  set (T2 := mkPt (pt_name T) (pt_cols T ++ [x2]) (pt_cons T) (pt_idx T)).
+  assert (HT : find_table tn (catalog_of s) = Some T) by (rewrite find_table_catalog_of, Hf; reflexivity).
+  assert (HTn : pt_name T = tn) by (unfold T; now rewrite pt_name_table_cat).
+  assert (Hnocol : existsb (fun y => String.eqb (pc_name y) cn) (pt_cols T) = false).
+  { fold (has_col cn T). unfold T. now rewrite has_col_table_cat. }
+  assert (Hdt : column_default_text (set_nullable true col) = None /\ column_default_text col = None).
+  { unfold column_default_text. cbn [set_nullable c_default]. now rewrite Edef. }
+  destruct Hdt as [Hd1 Hd2].
+  (* statement 1: ADD COLUMN, nullable *)
+  assert (S1 : exec (catalog_of s) (SAlterTable tn [AAddColumn (sea_coldef tn (set_nullable true col))])
+               = Ok (replace_table T1 tn (catalog_of s))).
+  { cbn [exec]. rewrite HT. cbn [exec_alter_ops]. unfold exec_alter_op. rewrite HT.
+    unfold sea_coldef. cbn [cd_name cd_type cd_notnull cd_default cd_pk set_nullable c_name c_type c_nullable negb].
+    fold cn. change (has_col cn T) with (existsb (fun y => String.eqb (pc_name y) cn) (pt_cols T)). rewrite Hnocol.
+    unfold mk_col. cbn [cd_type cd_name cd_notnull cd_default]. rewrite Eres, Hd1. reflexivity. }
+  set (c1 := replace_table T1 tn (catalog_of s)).
+  assert (HT1 : find_table tn c1 = Some T1) by (apply (find_replace tn _ T T1 HT HTn)).
+  (* statement 2: UPDATE *)
+  assert (S2 : forall e, exec c1 (SUpdate tn cn e None) = Ok c1).
+  { intro e. cbn [exec]. rewrite HT1. unfold has_col, T1. cbn [pt_cols]. rewrite existsb_app. cbn [existsb pc_name x1].
+    now rewrite String.eqb_refl, orb_true_r. }
+  (* statement 3: ALTER COLUMN .. TYPE .., ALTER COLUMN .. SET NOT NULL *)
+  assert (Hfc1 : find_col cn T1 = Some x1) by (apply find_col_snoc; [exact Hnocol|reflexivity]).
+  assert (Hsame : update_col T1 cn (fun _ => x1) = T1).
+  { unfold update_col, T1. cbn [pt_name pt_cols pt_cons pt_idx]. f_equal. apply update_snoc; [exact Hnocol|reflexivity]. }
+  assert (Hnn2 : update_col T1 cn (fun _ => x2) = T2).
+  { unfold update_col, T1, T2. cbn [pt_name pt_cols pt_cons pt_idx]. f_equal. apply update_snoc; [exact Hnocol|reflexivity]. }
+  assert (S3 : exec c1 (SAlterTable tn (modify_column_ops (sea_coldef tn col))) = Ok (replace_table T2 tn (catalog_of s))).
+  { unfold modify_column_ops, sea_coldef. cbn [cd_name cd_type cd_notnull cd_default]. rewrite Hnn, Hd2. cbn [negb app].
+    cbn [exec]. rewrite HT1. cbn [exec_alter_ops]. fold cn.
+    assert (O1 : exec_alter_op c1 tn (AAlterType cn (sea_type tn (c_type col)) None) = Ok (c1, tn)).
+    { unfold exec_alter_op. rewrite HT1, Hfc1. unfold c1 at 1. rewrite (resolve_replace tn _ T T1 _ HT HTn), Eres.
+      cbn [pc_name pc_type pc_notnull pc_default pc_autoinc x1 orb]. fold ty. fold x1. rewrite Hsame.
+      unfold c1. now rewrite (replace_replace tn _ T1 T1 HTn). }
+    rewrite O1.
+    unfold exec_alter_op. rewrite HT1, Hfc1. cbn [pc_name pc_type pc_default pc_autoinc x1]. fold x2. rewrite Hnn2.
+    unfold c1. now rewrite (replace_replace tn _ T1 T2 HTn). }
+  exists ([SAlterTable tn [AAddColumn (sea_coldef tn (set_nullable true col))]]
+          ++ [SUpdate tn cn (convert_default_pg (if String.eqb fv "" then "''" else fv)) None]
+          ++ [SAlterTable tn (modify_column_ops (sea_coldef tn col))]). split.
+  - cbn [gen]. unfold gen_add_column. rewrite Hnn, Edef. cbn [negb andb normalize_fill_with option_map].
+    unfold create_enum_type. destruct (c_type col) as [st|vl|np ns|cl|cu|en ev]; try reflexivity.
+    unfold is_string_enum in Hne. apply negb_false_iff in Hne. now rewrite Hne.
+  - rewrite (step_schema_ok s _ s') by exact Hup. cbn [app exec_all]. rewrite S1. fold c1. rewrite S2, S3.
+    f_equal. rewrite Hc. f_equal.
+    unfold T2, T, table_cat, t'. cbn [t_name t_columns t_constraints pt_name pt_cols pt_cons pt_idx].
+    f_equal. rewrite map_app. cbn [map]. f_equal. f_equal.
+    unfold x2, col_cat, cn, ty. cbn [t_name t_constraints]. rewrite Hname, Hnn, Hd2. cbn [negb orb].
+    unfold pk_of in *. cbn [t_constraints].
+    destruct (find is_pk (t_constraints t)) as [[a cols| | | |]|]; try reflexivity.
+    apply negb_true_iff in Hpk. rewrite Hpk. cbn [andb]. now destruct a.
+Qed.
